@@ -28,6 +28,7 @@ type guard struct {
 	parts       []guardPart
 	baseOutside []string
 	baseInside  []string
+	baseRoot    []string // the directories on the view's own root path (root and ancestors) that existed
 }
 
 func segsOf(p string) []string {
@@ -38,6 +39,19 @@ func segsOf(p string) []string {
 		}
 	}
 	return out
+}
+
+// onRootPath: segs is the root or one of its ancestors
+func onRootPath(segs, root []string) bool {
+	if len(segs) > len(root) {
+		return false
+	}
+	for i, s := range segs {
+		if root[i] != s {
+			return false
+		}
+	}
+	return true
 }
 
 // strictly under root?
@@ -53,13 +67,19 @@ func under(segs, root []string) bool {
 	return true
 }
 
-// snap returns the entries of one part, split
-func (p guardPart) snap() (outside, inside []string) {
+// snap returns the entries of one part, split.  rootPath: directory entries of the view's own root path — a view
+// opened on a path that does not exist yet may create it on the first write ("resolved inside the root"), so these
+// may appear; they must never disappear or turn into files.
+func (p guardPart) snap() (outside, inside, rootPath []string) {
 	add := func(path string, entry string) {
 		e := p.label + entry
-		if under(segsOf(path), p.root) {
+		segs := segsOf(path)
+		switch {
+		case under(segs, p.root):
 			inside = append(inside, e)
-		} else {
+		case strings.HasSuffix(entry, "/") && onRootPath(segs, p.root):
+			rootPath = append(rootPath, e)
+		default:
 			outside = append(outside, e)
 		}
 	}
@@ -136,14 +156,16 @@ func (p guardPart) snap() (outside, inside []string) {
 	return
 }
 
-func (g *guard) snap() (outside, inside []string) {
+func (g *guard) snap() (outside, inside, rootPath []string) {
 	for _, p := range g.parts {
-		o, i := p.snap()
+		o, i, r := p.snap()
 		outside = append(outside, o...)
 		inside = append(inside, i...)
+		rootPath = append(rootPath, r...)
 	}
 	sort.Strings(outside)
 	sort.Strings(inside)
+	sort.Strings(rootPath)
 	return
 }
 
@@ -176,10 +198,19 @@ func sameList(a, b []string) bool {
 
 // verdict: "same", "CHANGED …" or "LEAK …"; insideChanged: the inside differs from its baseline
 func (g *guard) verdict() (res string, insideChanged bool) {
-	out, in := g.snap()
-	insideChanged = !sameList(in, g.baseInside)
+	out, in, rp := g.snap()
+	insideChanged = !sameList(in, g.baseInside) || !sameList(rp, g.baseRoot)
 	if d := firstDiff(g.baseOutside, out); d != "" {
 		return "CHANGED " + d, insideChanged
+	}
+	have := map[string]bool{}
+	for _, e := range rp {
+		have[e] = true
+	}
+	for _, e := range g.baseRoot {
+		if !have[e] {
+			return "CHANGED -" + e, insideChanged
+		}
 	}
 	for _, e := range in {
 		if leaks(e) {
@@ -229,7 +260,7 @@ func cmdGuard(s *fsdrv.Session, args []string) string {
 		g.parts = append(g.parts, p)
 	}
 	return s.Exec(func() string {
-		g.baseOutside, g.baseInside = g.snap()
+		g.baseOutside, g.baseInside, g.baseRoot = g.snap()
 		s.Vals["guard:"+args[0]] = g
 		return "ok"
 	})
